@@ -73,7 +73,7 @@ def main():
         limit = getattr(mod, 'SHARD_TIMEOUT', {}).get(a.tier, 3600)
         for i in range(nshards):
             out = os.path.join(tmpd, f'p{i}.json')
-            cmd = [sys.executable, '-B', os.path.abspath(__file__), a.prop, '--tier', a.tier, '--seed', str(a.seed),
+            cmd = [sys.executable, '-B', '-W', 'ignore::SyntaxWarning', os.path.abspath(__file__), a.prop, '--tier', a.tier, '--seed', str(a.seed),
                    '--shard', f'{i}/{nshards}', '--out', out]
             procs.append((i, out, subprocess.Popen(cmd, env=dict(os.environ, VERIF_SCRATCH=scratch))))
         deadline = time.time() + limit
